@@ -3,6 +3,7 @@ package shard
 import (
 	"fmt"
 
+	"github.com/nspcc-dev/neofs-node/internal/verifhook"
 	"github.com/nspcc-dev/neofs-node/pkg/local_object_storage/blobstor/common"
 	"github.com/nspcc-dev/neofs-node/pkg/local_object_storage/shard/mode"
 	"github.com/nspcc-dev/neofs-node/pkg/local_object_storage/util/logicerr"
@@ -35,9 +36,11 @@ func (s *Shard) setMode(m mode.Mode) error {
 	components := []func(mode.Mode) error{
 		s.metaBase.SetMode, s.setModeStorage,
 	}
+	names := []string{"metabase", "blobstor"}
 
 	if s.hasWriteCache() {
 		components = append(components, s.writeCache.SetMode)
+		names = append(names, "writecache")
 	}
 
 	// The usual flow of the requests:
@@ -49,12 +52,17 @@ func (s *Shard) setMode(m mode.Mode) error {
 	if m != mode.ReadWrite {
 		if s.hasWriteCache() {
 			components[0], components[2] = components[2], components[0]
+			names[0], names[2] = names[2], names[0]
 		} else {
 			components[0], components[1] = components[1], components[0]
+			names[0], names[1] = names[1], names[0]
 		}
 	}
 
 	for i := range components {
+		if err := verifhook.Fault("shard.setmode." + names[i]); err != nil {
+			return err
+		}
 		if err := components[i](m); err != nil {
 			return err
 		}
